@@ -1581,7 +1581,21 @@ func (f *FnEnc) checkPost(results []Val, pos token.Pos) {
 
 // checkFrame: every component changed since entry differs only at declared locations
 // (among locations that existed at entry).
+type frameGoal struct {
+	name string
+	goal Term
+}
+
 func (f *FnEnc) checkFrame(vars map[string]binding) {
+	for _, g := range f.frameGoals(vars, f.st) {
+		f.addObl("frame", g.name+"@ret"+fmt.Sprint(len(f.rets)), g.goal, token.NoPos, nil, "assigns clause")
+	}
+}
+
+// frameGoals: for every heap component that differs between the function's entry state and st, the
+// formula "every object that existed at entry and is not an assigns target still holds its entry
+// value". Used at every return (checkFrame) and, as an implicit invariant, at loop heads.
+func (f *FnEnc) frameGoals(vars map[string]binding, st *State) (out []frameGoal) {
 	e := f.e
 	ctx := &SpecCtx{e: e, f: f, vars: vars, st: f.entry, old: f.entry, pkg: f.fn.Pkg.Pkg}
 	var targets []assignTarget
@@ -1604,12 +1618,12 @@ func (f *FnEnc) checkFrame(vars map[string]binding) {
 		}
 	}()
 	if all {
-		return
+		return nil
 	}
 	alloc0 := f.entry.Alloc
 	for _, name := range sortedKeys(e.comps) {
 		c := e.comps[name]
-		cur := e.lookup(f.st, c)
+		cur := e.lookup(st, c)
 		init := e.lookup(f.entry, c)
 		if cur.S == init.S {
 			continue
@@ -1659,10 +1673,15 @@ func (f *FnEnc) checkFrame(vars map[string]binding) {
 				existed = tTrue
 			}
 			cond := tAnd(existed, tNot(tOr(excl...)))
-			goal = Term{fmt.Sprintf("(forall (%s) (=> %s (= %s %s)))", strings.Join(qdecl, " "), cond.S, nestedSelect(cur, qv).S, nestedSelect(init, qv).S), SBool}
+			if strings.HasPrefix(cur.S, "(") || !strings.Contains(cur.S, "@") || strings.Contains(cur.S, "'") {
+				goal = Term{fmt.Sprintf("(forall (%s) (=> %s (= %s %s)))", strings.Join(qdecl, " "), cond.S, nestedSelect(cur, qv).S, nestedSelect(init, qv).S), SBool}
+			} else {
+				goal = Term{fmt.Sprintf("(forall (%s) (! (=> %s (= %s %s)) :pattern (%s)))", strings.Join(qdecl, " "), cond.S, nestedSelect(cur, qv).S, nestedSelect(init, qv).S, nestedSelect(cur, qv).S), SBool}
+			}
 		}
-		f.addObl("frame", c.Name+"@ret"+fmt.Sprint(len(f.rets)), goal, token.NoPos, nil, "assigns clause")
+		out = append(out, frameGoal{c.Name, goal})
 	}
+	return out
 }
 
 // ---------- defers ----------
